@@ -360,26 +360,17 @@ class SymbolTable(OpTrait):
         Lookup a symbol by reference, starting from a specific operation's closest
         SymbolTable parent.
         """
-        # import builtin here to avoid circular import
-        from xdsl.dialects.builtin import StringAttr, SymbolRefAttr
-
         anchor: Operation | None = op
         while anchor is not None and not anchor.has_trait(SymbolTable):
             anchor = anchor.parent_op()
         if anchor is None:
             raise ValueError(f"Operation {op} has no SymbolTable ancestor")
-        if isinstance(name, str | StringAttr):
-            name = SymbolRefAttr(name)
-        for o in anchor.regions[0].block.ops:
-            if (
-                sym_interface := o.get_trait(SymbolOpInterface)
-            ) is not None and sym_interface.get_sym_attr_name(o) == name.root_reference:
-                if not name.nested_references:
-                    return o
-                nested_root, *nested_references = name.nested_references.data
-                nested_name = SymbolRefAttr(nested_root, nested_references)
-                return SymbolTable.lookup_symbol(o, nested_name)
-        return None
+        # Nested references are only resolved through symbol tables and cannot reach
+        # private symbols, see `xdsl.utils.symbol_table` (imported here to avoid a
+        # circular import).
+        from xdsl.utils.symbol_table import SymbolTable as SymbolTableUtils
+
+        return SymbolTableUtils.lookup_symbol_in(anchor, name)
 
     @staticmethod
     def insert_or_update(
